@@ -444,7 +444,9 @@ def run(ctx):
     grbs_search(ctx)
     exec_search(ctx)
     unitary_history(ctx)
+    from props import C01_extra
+    C01_extra.run_suites(ctx, density=False)
     ctx.assumptions += [
-        "qulacs backend not installed in this sandbox: only the numpy state-vector backend is exercised",
+        "qulacs backend (the QASM-convertible gate set) is examined by search only; qibojit / tensorflow / pytorch are not installed in this sandbox",
         "numpy einsum/transpose/reshape behave as modelled (differentially tested on Gaussian-integer data)",
     ]
